@@ -536,7 +536,7 @@ pub fn before(t: usize, a: &Access) -> bool {
     let s = g.as_mut().unwrap();
     // ---- crash point: the instant before this access is performed
     if let Some(every) = s.crash_every {
-        if s.steps % every.max(1) == 0 && s.crash_points.len() < 6000 && !s.torn_down {
+        if s.steps % every.max(1) == 0 && s.crash_points.len() < 1500 && !s.torn_down {
             let bytes = unsafe { std::slice::from_raw_parts(s.base as *const u8, s.cap) }.to_vec();
             let site = match (0..s.n).find_map(|u| s.outstanding[u]) {
                 Some((_, line)) => format!("mark-outstanding {}", crate::scen::linemap().func(line)),
